@@ -139,8 +139,8 @@ func rUsualCommands(cfg config, op string, k ksrig.ModelKind) int {
 }
 
 func runRedisFaultedHistory(r *ev.Run, hidx int) {
-	cfg := rfConfigs[hidx%len(rfConfigs)]
 	shape := rShapes[(hidx/len(rfConfigs))%len(rShapes)]
+	cfg := rVariant(rfConfigs[hidx%len(rfConfigs)], shape[0])
 	rng := gen.New(r.Seed, fmt.Sprintf("c06/redis-faulted-history/%d", hidx))
 	nForeign := []int{0, 25, 12}[hidx%3]
 	db := hidx % 2
